@@ -106,6 +106,18 @@ fn augment(s: &Shape, v: &Val, counter: &mut usize, inj: &Injection, hits: &mut 
             let (si, vi) = augment(i, x, counter, inj, hits);
             (Shape::NewtypeStruct(name, Box::new(si)), vi)
         }
+        (Shape::RichEnum(i), Val::Variant(idx, vals)) => {
+            // payload variants (newtype / tuple / struct) carry the inner shape as their first item
+            if *idx == 0 {
+                let (si, _) = augment_shape_only(i, counter, inj);
+                (Shape::RichEnum(Box::new(si)), v.clone())
+            } else {
+                let (si, vi) = augment(i, &vals[0], counter, inj, hits);
+                let mut nv = vals.clone();
+                nv[0] = vi;
+                (Shape::RichEnum(Box::new(si)), Val::Variant(*idx, nv))
+            }
+        }
         (Shape::Struct(name, fs), Val::Struct(vals)) => {
             let me = *counter;
             *counter += 1;
@@ -135,6 +147,7 @@ fn augment_shape_only(s: &Shape, counter: &mut usize, inj: &Injection) -> (Shape
         Shape::Seq(i) => Shape::seq(augment_shape_only(i, counter, inj).0),
         Shape::Map(k, i) => Shape::map(*k, augment_shape_only(i, counter, inj).0),
         Shape::NewtypeStruct(name, i) => Shape::NewtypeStruct(name, Box::new(augment_shape_only(i, counter, inj).0)),
+        Shape::RichEnum(i) => Shape::RichEnum(Box::new(augment_shape_only(i, counter, inj).0)),
         Shape::Struct(name, fs) => {
             let me = *counter;
             *counter += 1;
@@ -294,6 +307,20 @@ pub fn shape_space(args: &Args) -> Vec<Shape> {
     shapes.push(nt(Shape::seq(obj.clone())));
     shapes.push(nt(Shape::map(Leaf::F64, Shape::opt(obj.clone()))));
     shapes.push(Shape::Struct("S", vec![("a", nt(Shape::opt(nt(obj.clone())))), ("b", i32s.clone())]));
+    // serde-derived externally tagged enums (hand-written types of macro-based services):
+    // objects below newtype / tuple / struct variant payloads
+    let en = |s: Shape| Shape::RichEnum(Box::new(s));
+    shapes.push(en(obj.clone()));
+    shapes.push(en(Shape::Struct("E", vec![])));
+    shapes.push(Shape::seq(en(obj.clone())));
+    shapes.push(Shape::opt(en(obj.clone())));
+    shapes.push(Shape::map(Leaf::Str, en(obj.clone())));
+    shapes.push(en(Shape::seq(obj.clone())));
+    shapes.push(en(Shape::opt(obj.clone())));
+    shapes.push(en(en(obj.clone())));
+    shapes.push(nt(en(obj.clone())));
+    shapes.push(Shape::Struct("S", vec![("a", en(obj.clone())), ("b", i32s.clone())]));
+    shapes.push(en(Shape::Struct("S", vec![("a", en(obj.clone())), ("b", i32s.clone())])));
     shapes
 }
 
@@ -339,7 +366,7 @@ pub fn run(args: &Args) -> Report {
     report.nontrivial = report.states;
     report.rule = "states = (shape with >= 1 object node, value, object node, insertion position, injected value) and pairs of injections; the augmented value is serialized and read back under the original shape by every client/server x JSON/Smile x source path; a state is counted only when at least one object instance in the document actually received the field".into();
     report.assumptions.push("the un-injected document must round-trip (else the case is skipped as C01's business)".into());
-    report.assumptions.push("serde's positional-array form of a struct and struct variants are out of scope".into());
+    report.assumptions.push("serde's positional-array form of a struct is out of scope; struct variants are covered as containers of objects, not as injection targets".into());
     report
 }
 
